@@ -33,7 +33,7 @@ func init() {
 		Level: "exploration",
 		Cases: func(t string) int {
 			if t == ev.Thorough {
-				return 8000
+				return 4800
 			}
 			return 144
 		},
@@ -56,9 +56,9 @@ func init() {
 			"concurrency phase: readers use only Get/Hash/Iterator/Filter/GetProof on the shared snapshot (Immutable.Empty() reads the root without a lock and is only used by goloop on unshared snapshots; it is outside the property's observation points)"},
 		TimeoutSec: func(t string) int {
 			if t == ev.Thorough {
-				return 3000
+				return 7200
 			}
-			return 400
+			return 600
 		},
 		Run: run,
 	})
